@@ -1018,12 +1018,14 @@ def c09(tier, seed):
     rnd = random.Random(seed)
     d = game.trace_dir("C09")
     # design level: the PVS / fail-hard / depth-1 algorithm equals plain negamax on every tree of the bounded shapes
-    for shape in (["flat5", "1x4x2"] if quick else ["flat5", "4x2", "2x4", "1x4x2", "2x4x1", "flat5_v5"]):
+    # (the ...T shapes put no-legal-move terminals - the one fail-soft return of the search - among the children: InvNodeT)
+    for shape in (["flat5", "1x4x2", "1x4xT"] if quick else ["flat5", "4x2", "2x4", "1x4x2", "2x4x1", "flat5_v5", "1x4xT", "3xT", "5xT"]):
         r = core.tlc_mc("Pvs", "mc/Pvs_%s.cfg" % shape, workers=8, tag="c09-pvs-" + shape)
         if r["violated"]:
             raise core.ToolError("Pvs.tla: the transcribed algorithm violates %s on shape %s" % (r["violated"], shape))
         r["output"] = ""
-        run.add_mc(r, {"shape": shape, "leaf_values": "-2..2" if shape.endswith("v5") else "-1..1"})
+        run.add_mc(r, {"shape": shape, "leaf_values": "-2..2" if shape.endswith("v5") else "-1..1",
+                       "terminals": "stalemate 0 / mated -90, window-independent" if shape.endswith("T") else "none"})
     flat, games = srch.game_positions(vh, "C09", seed, 8 if quick else 40, 120, 6)
     fams = families(run, [("KXK", 9000 if quick else 900), ("PROMO", 3000 if quick else 300), ("EP", 40000 if quick else 4000)], seed, "C09")
     fam_pos = []
